@@ -187,6 +187,33 @@ def drv(keys, ops):
                     lib.add([b1, b2], fail_on_duplicate_key=(name == "add2f"))
                 except ValueError:
                     raised = True
+        elif name == "remove_all":
+            # the list handed in is the library's own block list (lib.blocks): everything held is removed
+            expected = []
+            try:
+                lib.remove(lib.blocks)
+            except ValueError:
+                raised = True
+        elif name == "add_all":
+            # ... and adding that list adds every held block once more (entries / strings as duplicates of themselves)
+            expected = pre + [("dup", b) if isinstance(b, (M.Entry, M.String)) else b for b in pre]
+            try:
+                lib.add(lib.blocks)
+            except ValueError:
+                raised = True
+        elif name == "addf_gen":
+            # blocks handed in as a one-shot iterator, with the flag: a duplicate must still be reported
+            b = arg(lib, u, op[1])
+            if b is None:
+                skip = True
+            else:
+                dup = live_collision(pre, b, -1)
+                expected = pre + [("dup", b) if dup else b]
+                should_raise = dup
+                try:
+                    lib.add((x for x in [b]), fail_on_duplicate_key=True)
+                except ValueError:
+                    raised = True
         elif name == "remove":
             b = arg(lib, u, op[1])
             if b is None:
@@ -253,7 +280,7 @@ def drv(keys, ops):
         flags["raises-iff-expected"] = raised == should_raise
         if raised:
             flags["rollback"] = same_list(lib.blocks, pre) and lib._entries_by_key == pre_e and lib._strings_by_key == pre_s
-            if name in ("addf", "add2f"):
+            if name in ("addf", "add2f", "addf_gen"):
                 # the known finding (documented behaviour): EVERY block of the call is held, duplicates wrapped, and then the
                 # call raises.  Anything else than "rolled back" or "exactly that" is a different violation.
                 flags["raised-add-state"] = flags["rollback"] or same_list(lib.blocks, expected)
@@ -279,7 +306,7 @@ def known_key(fails, log):
     """classification used for the known-findings file"""
     keys = set()
     for step, name, flag in fails:
-        if name in ("addf", "add2f") and flag == "rollback":
+        if name in ("addf", "add2f", "addf_gen") and flag == "rollback":
             keys.add("add[fail_on_duplicate_key=True]-mutates-before-raising")
         else:
             keys.add(f"{name}:{flag}")
@@ -289,12 +316,29 @@ def known_key(fails, log):
 def replay(keys, ops):
     import logging
     logging.disable(logging.CRITICAL)
+    import signal
+
+    class _Hang(BaseException):
+        pass
+
+    def _alarm(signum, frame):
+        raise _Hang()
+    old = signal.signal(signal.SIGVTALRM, _alarm)
+    signal.setitimer(signal.ITIMER_VIRTUAL, 1)      # a history of <= 4 calls takes milliseconds; 1 s of CPU time is a hang
     try:
         log = drv(keys, ops)
+    except _Hang:
+        return {"input": [keys, ops], "observed": "did not return within 1 s of CPU time (a call that never ends)", "expected": "every call returns"}
+    except MemoryError:
+        return {"input": [keys, ops], "observed": "MemoryError (a call that never ends)", "expected": "every call returns"}
     except Exception as ex:  # noqa
+        signal.setitimer(signal.ITIMER_VIRTUAL, 0)
         from pysym.harness import guard_repo_exception
         guard_repo_exception(ex)
         return {"input": [keys, ops], "observed": f"raised {type(ex).__name__}: {ex}", "expected": "only ValueError, handled"}
+    finally:
+        signal.setitimer(signal.ITIMER_VIRTUAL, 0)
+        signal.signal(signal.SIGVTALRM, old)
     f = failing(log)
     if not f:
         return None
@@ -304,7 +348,9 @@ def replay(keys, ops):
 
 
 def task(ops):
-    eng = Engine()
+    # a history of <= 4 library calls needs a few thousand interpreted instructions; a call that never returns
+    # (adding the library's own, growing block list) is cut off early
+    eng = Engine(step_limit=150_000)
     rec = Recorder(eng)
     keys = [eng.sym_str(f"k{i}_", 1, "ab") if kd in "ES" else "" for i, kd in enumerate(UNIVERSE)]
     worlds = eng.run(drv, [keys, ops])
@@ -362,6 +408,10 @@ def op_space():
         for new in (("u", 1), ("u", 3), ("u", 4), ("u", 0)):
             ops.append(("replace", old, new))
             ops.append(("replacef", old, new))
+    ops.append(("remove_all",))
+    ops.append(("add_all",))
+    ops.append(("addf_gen", ("u", 0)))
+    ops.append(("addf_gen", ("u", 3)))
     ops.append(("replace", ("u", 7), ("u", 4)))
     ops.append(("replace", ("u", 5), ("u", 4)))
     return ops
@@ -384,9 +434,9 @@ def main():
         core = [o for o in adds if (o[0] == "add" and o[1][1] <= 3) or o in (("add2", ("u", 0), ("u", 1)), ("add2", ("u", 2), ("u", 3)))]
         # depth 3: first call populates; depth 4: two populating calls from the core adds, then a non-add, then anything
         hist = [h for h in hist if len(h) <= 2 or (len(h) == 3 and h[0] in adds)
-                or (len(h) == 4 and h[0] in core and h[1] in core and h[2][0] not in ("add", "add2", "addf", "add2f"))]
+                or (len(h) == 4 and h[0] in core and h[1] in core and h[2][0] not in ("add", "add2", "addf", "add2f", "add_all", "addf_gen"))]
     chk.bounds = {"universe": "u0 Entry without fields, u1 Entry; u2 String with empty value, u3 String; u4 Preamble; u5 ExplicitComment; u6 ParsingFailedBlock; u7 a second ExplicitComment equal in value to u5; every Entry/String key one symbolic character over {a,b}",
-                  "operations": f"{len(ops)} concrete operation shapes (add, add with fail_on_duplicate_key, add of a 2-list with and without the flag, remove, remove of a 2-list, replace in both fail modes; arguments = universe blocks or currently held blocks h0/h1)",
+                  "operations": f"{len(ops)} concrete operation shapes (add, add with fail_on_duplicate_key, add of a 2-list with and without the flag, add of a one-shot iterator with the flag, add / remove of the library's own block list, remove, remove of a 2-list, replace in both fail modes; arguments = universe blocks or currently held blocks h0/h1)",
                   "histories": f"{len(hist)} histories of <= {depth} calls from the empty library"}
     chk.assumptions = ["histories longer than the bound are covered inductively only in the sense that every step is checked against the pre-state it actually runs from (per-step frame conditions + invariant), for the pre-states reachable within the bound",
                        "keys are one character over {a,b}"]
